@@ -56,6 +56,8 @@ class Prop:
     exhaustive = False
     stay_in_limits = True    # shrinking keeps histories inside the property's quantifier
     needs_spec = False       # run the extracted reference model (Spec.v) next to the implementation
+    shrink_ok = True         # False where the oracle relates several graphs/handles of one history (twins, pairs,
+                             # positions recorded in meta): deleting calls would fabricate differences
 
     def __init__(self):
         self.spec_lines = {}
